@@ -162,9 +162,30 @@ where
   judgeLoadLineSkip (k : MutKind) (out : List String) : String :=
     if out.head? = some "skip" then "ok" else judgeLoadLine k out
 
-def step (_ : Unit) (ts : List String) : Unit × String :=
+/-- strips reader-behaviour wrappers -/
+def innerOp : List String → List String
+  | "with" :: _ :: rest => innerOp rest
+  | op => op
+
+/-- State: the number of write attempts of the case's pristine DIRECTORY load (`noop`). The model
+(`archive_load_no_write_before_failure`) predicts for every load through `ArchiveReader`: failure => no write
+(judged by `judgeLoad`: `err` with a non-empty log is a violation), success => exactly the trace of the directory
+load of the unpacked collection — so an accepted archive load of the case's collection must show the same
+number of write attempts as the directory load. -/
+def step (st : Option Nat) (ts : List String) : Option Nat × String :=
   let (op, out) := splitArrow ts
-  stepOp op out
+  let verdict := (stepOp op out).2
+  let log := (parseLoadObs out).map (·.log)
+  match innerOp op with
+  | "dump" :: _ => (none, verdict)
+  | ["noop"] => (if out.head? = some "ok" then log else st, verdict)
+  | "arc" :: _ =>
+    if verdict = "ok" ∧ out.head? = some "ok" then
+      match st, log with
+      | some n, some l => if n = l then (st, verdict) else (st, s!"reject archive-load-trace-differs dir={n} archive={l}")
+      | _, _ => (st, verdict)
+    else (st, verdict)
+  | _ => (st, verdict)
 
 def stepPath (_ : Unit) (ts : List String) : Unit × String :=
   let (op, out) := splitArrow ts
@@ -179,7 +200,7 @@ def stepPath (_ : Unit) (ts : List String) : Unit × String :=
     | none => ((), "reject unsafe-path-accepted not-utf8")
   | _ => ((), "reject bad-output " ++ " ".intercalate out)
 
-def suite : Suite := { σ := Unit, init := (), step := step }
+def suite : Suite := { σ := Option Nat, init := none, step := step }
 def pathSuite : Suite := { σ := Unit, init := (), step := stepPath }
 end Driver.C20Mon
 
